@@ -125,6 +125,14 @@ class DAGAnalyzer(ASTTemplate):
     def create_dag(cls, ast: Start) -> "DAGAnalyzer":
         dag = cls()
         dag.visit(ast)
+        # A name assigned twice is an error whatever the statement order: check it before the
+        # cycle detection (whose edges only know the last definition of each name).
+        assigned: Set[str] = set()
+        for deps in dag.dependencies.values():
+            for name in list(deps.outputs) + list(deps.persistent):
+                if name in assigned:
+                    raise SemanticError("1-2-2", varId_value=name)
+                assigned.add(name)
         dag.load_vertex()
         dag.load_edges()
         try:
